@@ -21,8 +21,8 @@ def scenarios():
     S = []
     inputs = {"tiny": b'{"a":1}\n', "two": b'{"a":1} {"a":2}\n', "medium": (b'{"k":[' + b",".join(b"%d" % i for i in range(40)) + b']}\n'), "empty": b""}
     filters = {"identity": ".", "incr": ".a |= . + 1000000", "shrink": "0", "empty": "empty", "err0": 'error("x")', "err1": '., error("x")', "halt": "halt", "halt1": "., halt(3)", "second_fails": 'if .a == 2 then error("x") else . end'}
-    def add(name, files, filt, mode=0o644, form="rel", fmt=None, bad=None):
-        S.append({"name": name, "files": files, "filter": filt, "mode": mode, "form": form, "fmt": fmt, "bad": bad})
+    def add(name, files, filt, mode=0o644, form="rel", fmt=None, bad=None, umask=0o022):
+        S.append({"name": name, "files": files, "filter": filt, "mode": mode, "form": form, "fmt": fmt, "bad": bad, "umask": umask})
     # one file: every filter x every input
     for fn, f in filters.items():
         for inn, data in inputs.items():
@@ -35,6 +35,9 @@ def scenarios():
     # mode bits and path forms
     for mode in (0o444, 0o600, 0o755):
         add(f"1file/identity/mode{mode:o}", [inputs["tiny"]], ".a |= . + 1", mode=mode)
+    # permission bits that the process umask would clear, and a restrictive umask
+    for mode, um in ((0o666, 0o022), (0o664, 0o027), (0o644, 0o077), (0o777, 0o077), (0o604, 0o022)):
+        add(f"1file/incr/mode{mode:o}-umask{um:03o}", [inputs["tiny"]], ".a |= . + 1", mode=mode, umask=um)
     for form in ("dot", "abs", "subdir"):
         add(f"1file/incr/{form}", [inputs["tiny"]], ".a |= . + 1", form=form)
     # several files: success, and failure on the second / third file
@@ -52,7 +55,7 @@ def scenarios():
         add("2files/empty-output-then-incr", [inputs["tiny"], inputs["tiny"]], "if input_filename | test(\"f0\") then empty else .a |= . + 1 end")
     if tier == "quick":
         keep = {"1file/identity/tiny", "1file/incr/tiny", "1file/shrink/two", "1file/empty/tiny", "1file/err0/tiny", "1file/err1/two", "1file/halt1/tiny", "1file/second_fails/two", "1file/incr/empty",
-                "1file/parse-error-at-1", "1file/identity/mode444", "1file/incr/abs", "2files/second-fails", "2files/incr"}
+                "1file/parse-error-at-1", "1file/identity/mode444", "1file/incr/abs", "2files/second-fails", "2files/incr", "1file/incr/mode666-umask022", "1file/incr/mode644-umask077"}
         S = [sc for sc in S if sc["name"] in keep]
     return S
 
@@ -105,7 +108,7 @@ def run_case(sc, exp, inject):
             elif inject[0] == "fail": cmd += ["--fail", str(inject[1]), str(inject[2])]
             else: cmd += ["--short-write", str(inject[1])]
         cmd += ["--", JAQ_FAST, "-i", sc["filter"]] + paths
-        subprocess.run(cmd, cwd=d, stdout=subprocess.PIPE, stderr=subprocess.PIPE, timeout=60)
+        subprocess.run(cmd, cwd=d, stdout=subprocess.PIPE, stderr=subprocess.PIPE, timeout=60, umask=sc.get("umask", 0o022))
         lines = open(log, errors="replace").read().splitlines()
         status = next((l for l in reversed(lines) if l.startswith(("EXIT", "SIGNAL"))), "EXIT ?")
         counted = int(next((l.split()[1] for l in reversed(lines) if l.startswith("COUNTED")), "0"))
